@@ -24,7 +24,10 @@ fn at_matches(state: &BlockState) -> bool {
 fn at_run(state: &mut BlockState, silent: bool, style_a: bool) -> bool {
     let line = state.line;
     let ok = at_matches(state);
-    AT_LOG.with(|l| l.borrow_mut().push((silent, line, ok)));
+    // a line an enclosing block quote has already marked as paragraph continuation (negative indent) is decided:
+    // the paragraph rule skips it without look-ahead; a claim made on it by an inner container's scan is moot
+    let decided = state.line_offsets[line].indent_nonspace < 0;
+    AT_LOG.with(|l| l.borrow_mut().push((silent, line, ok && !(silent && decided))));
     if !ok { return false; }
     if !silent {
         let mut node = Node::new(AtBlock);
